@@ -1944,12 +1944,12 @@ func (s *Netceptor) runProtocol(ctx context.Context, sess BackendSession, bi *Ba
 		if established {
 			select {
 			case s.sendRouteFloodChan <- 0:
-			case <-ctx.Done(): // ctx is a child of s.context
+			case <-s.context.Done(): // only a node that is shutting down skips the announcement
 				return
 			}
 			select {
 			case s.updateRoutingTableChan <- 0:
-			case <-ctx.Done():
+			case <-s.context.Done():
 				return
 			}
 		}
